@@ -45,6 +45,12 @@ Section Good.
     intros a b L Hb. change L with ([] ++ L). apply covers_seq; [apply covers_nil|assumption].
   Qed.
 
+  Lemma covers_seq_swap : forall a b L1 L2, covers a L2 -> covers b L1 -> covers (t_seq a b) (L1 ++ L2).
+  Proof.
+    intros a b L1 L2 Ha Hb Ea Er l Hl. apply (covers_seq a b L2 L1 Ha Hb Ea Er).
+    apply in_or_app. apply in_app_or in Hl. tauto.
+  Qed.
+
   Lemma covers_incl : forall e L L', covers e L -> incl L' L -> covers e L'.
   Proof. intros e L L' H I Ea Er l Hl. apply (H Ea Er l (I l Hl)). Qed.
 
@@ -84,22 +90,18 @@ Proof.
 Qed.
 
 (** solves [covers chk e L] for the effect terms the translator can produce, given coverage of the
-    recursive descents in the context *)
-Ltac covers_tac chk :=
-  repeat first
+    recursive descents in the context (backtracking over which part of a sequence covers what) *)
+Ltac cov :=
+  first
     [ assumption
     | apply covers_nil
-    | match goal with
-      | |- covers _ (t_if _ _ _) _ => apply covers_if; intros
-      | |- covers _ (t_try (t_seq (t_check _ ?s) t_skip) _) [?s] =>
-          eapply covers_try_err with (sx := s); [apply covers_seq_l; apply covers_check|reflexivity]
-      | |- covers _ (t_try (t_check _ ?s) _) [?s] =>
-          eapply covers_try_err with (sx := s); [apply covers_check|reflexivity]
-      | |- covers _ (t_check _ ?s) [?s] => apply covers_check
-      | |- covers _ (t_seq _ _) (_ ++ _) => apply covers_seq
-      | |- covers _ (t_seq _ t_skip) _ => apply covers_seq_l
-      | |- covers _ (t_seq _ _) [] => apply covers_nil
-      end ].
+    | apply covers_check
+    | apply covers_if; intros; cov
+    | eapply covers_try_err; [cov|reflexivity]
+    | apply covers_seq; [cov|cov]
+    | apply covers_seq_swap; [cov|cov]
+    | apply covers_seq_l; cov
+    | apply covers_seq_r; cov ].
 
 Lemma pa_map_s_covers : forall chk s, covers chk (pa_map_s chk s) (par_loops_s s).
 Proof.
@@ -109,8 +111,7 @@ Proof.
     apply covers_list in H. apply covers_list in H0.
     cbn [pa_map_s par_loops_s is_For loop_mode_is_Par andb t_if].
     fold (pa_map_stmts chk). fold par_loops_list.
-    change (par_loops_list b ++ par_loops_list o) with ([] ++ (par_loops_list b ++ par_loops_list o)).
-    covers_tac chk.
+    cov.
   - (* For *)
     apply covers_list in H.
     cbn [pa_map_s par_loops_s is_For loop_mode_is_Par andb].
@@ -118,9 +119,8 @@ Proof.
     destruct par; cbn [t_if app].
     + change (For i lo hi body true :: par_loops_list body)
         with ([For i lo hi body true] ++ par_loops_list body).
-      covers_tac chk.
-    + change (par_loops_list body) with ([] ++ par_loops_list body).
-      covers_tac chk.
+      cov.
+    + cov.
 Qed.
 
 Lemma pa_apply_proc_covers : forall chk p, covers chk (pa_apply_proc chk p) (par_loops_of p).
